@@ -87,6 +87,24 @@ def apply_contract(interp, c, func, args, kwargs):
         old = _call_pred(interp, c.old, env)
     if c.event is not None:
         st.emit(c.event, dict(bound))
+    if c.modifies:
+        # frame of the callee: the named objects / fields are havocked (in place), then the postcondition is assumed
+        for name, ty in c.modifies.items():
+            parts = name.split('.')
+            obj = bound[parts[0]]
+            if isinstance(obj, (SOpt, SChoice)):
+                obj = interp.resolve(obj)
+            if hasattr(ty, 'havoc_in_place'):
+                for a in parts[1:]:
+                    obj = interp.getattr(obj, a)
+                ty.havoc_in_place(interp, obj, 'mod.%s' % name)
+            else:
+                if len(parts) < 2:
+                    raise Unsupported('contract %s: modifies entry %r must name a field or be havocked in place'
+                                      % (c.qname, name))
+                for a in parts[1:-1]:
+                    obj = interp.getattr(obj, a)
+                interp.setattr(obj, parts[-1], ty.make(interp, 'mod.%s' % name) if isinstance(ty, Ty) else ty)
     # exceptional outcomes
     outcomes = ['return']
     for exc_cls, spec in c.raises.items():
@@ -244,6 +262,7 @@ def _run_path(interp, reg, c, func, rep):
     old = None
     if c.old is not None:
         old = _call_pred(interp, c.old, env)
+        reg.ghost_env['old'] = old          # the pre-state snapshot is visible to loop invariants as `old`
     # positional order of the real function
     code = func.__code__
     names = list(code.co_varnames[:code.co_argcount + code.co_kwonlyargcount])
